@@ -40,7 +40,7 @@ CHECKS = {
          "property of the BPv7 wire format, reproduced on the implementation (corpus line, counted, not judged). K-corrupt channel: every bit flip, "
          "every window start with boundary/exhaustive patterns and CRC overwrites per block, model vs implementation, oracle = the alarm condition; "
          "REENC lines: a received bundle (correct or overwritten CRC values) gets a new payload and lifetime and is sent on - what to_cbor emits must "
-         "pass the check in memory and after decoding (instance of C05_uncorrupted_passes, which holds for every stored CRC state).",
+         "pass the check in memory and after decoding (C05_reencoded_passes: for every well-formed received bundle with a payload block, every new payload and lifetime).",
          "window class: same decoded CRC type (necessary, see C05_full_refuted); windows straddling content and CRC value are outside the property; "
          "as C01 for serde.", "DESIGN.md section 6 C05"),
  "C06": ("Coq theorems C06_decode_total (for EVERY byte string the decoder model returns Ok or Err, never Panic — by inversion of the stream parser through all "
@@ -78,7 +78,7 @@ CHECKS = {
          "C09_pinned_refuted keeps the two-atomics defect machine-checked; model tied to the real now() by running model schedules on OS threads "
          "stepped through the cfg(bp7_verif) scheduler hook, one fresh process per case; the same schedules through every other public entry point that "
          "stamps a bundle (SCHEDX: new_std_payload_bundle, new_status_report_bundle, ffi bundle_new_default; SCHEDR: helpers::rnd_bundle(now()) and ffi "
-         "helper_rnd_bundle, two draws per call, uniqueness only), a ticking clock (SCHEDT) and the free-running 16-thread stress (STRESS).",
+         "helper_rnd_bundle, two draws per call, uniqueness only - C09_handed_out_unique: every subsequence of the generator's answers is duplicate-free), a ticking clock (SCHEDT) and the free-running 16-thread stress (STRESS).",
          "sequential consistency of the instrumented operations (weak-memory reorderings outside the model); std::sync::Mutex.", "DESIGN.md section 6 C09"),
  "C10": ("Coq theorems C10_print_parse / C10_cbor_roundtrip / C10_accepts_canonical / C10_rejects / C10_node_id / C10_new_endpoint / C10_api_image / "
          "C10_total over a line-by-line transcription of eid.rs (Display, TryFrom<&str>, with_dtn, with_ipn, new_endpoint, node, node_id, service_name, "
@@ -138,7 +138,7 @@ CHECKS = {
          "dtn://n/a-5 (1,2) vs fragment dtn://n/a (5,1) offset 2), C13_fragment_collides / C13_known_none_name_narrow (the classes are tight), "
          "C13_refbundle (a status report about a non-fragment bundle prints the bundle's ID), C13_received_report_refers (a normal-form status "
          "report about a bundle - fragment or not - that went over the wire prints, after decoding, exactly that bundle's ID: composition with the "
-         "C12 record round trip); K-id channel: SRREF (reports decoded from reference encodings) and SRREFE (the same after one pass through the crate's record encoder), IDPAIR bundles built a second time through PrimaryBlockBuilder (same ID required), adversarial re-splittings of one ID "
+         "C12 record round trip); K-id channel: SRREF (reports decoded from reference encodings) and SRREFE (the same after one pass through the crate's record encoder), IDPAIR bundles built a second time through PrimaryBlockBuilder (same ID required; C13_builder_route: the builder with every field handed to its setter builds the same primary block), adversarial re-splittings of one ID "
          "text, single-field perturbations inside/outside the identity, random pairs, status-report references; failing pairs are classified by "
          "the same decidable predicate (known findings id-dash-source, id-none-name).",
          "Display for u64/EndpointID and format! are modelled; new_status_report on a fragment is unimplemented!() in the crate (not judged).",
